@@ -240,7 +240,12 @@ func (is *vInstanceSet) Create(it arvados.InstanceType, image cloud.ImageID, tag
 
 func (is *vInstanceSet) Instances(tags cloud.InstanceTags) ([]cloud.Instance, error) {
 	if is.m.isDead(is.gen) {
-		return nil, errors.New("verif: dispatcher generation is dead")
+		// A dead generation can no longer do anything to the cloud, the VMs
+		// or the queue; an empty answer (rather than an error) merely lets its
+		// pool finish loading, so that dispatcher.Close() - which the harness
+		// calls to reap the goroutines - does not wait forever on
+		// CountWorkers() when the restart came before the first listing.
+		return nil, nil
 	}
 	insts, err := is.sis.Instances(tags)
 	if err != nil {
